@@ -58,7 +58,8 @@ ValidChoice(T, n, taken) == T \cap taken = {} /\ Card(T) = Max(n, 0)
 
 L0 == [phase |-> "off", st |-> "PENDING", toks |-> {}, reg |-> 0, ro |-> FALSE, ready |-> FALSE,
        joinAt |-> -1, obsAt |-> -1, nextHb |-> -1, stopAt |-> -1,
-       pc |-> "idle", arg |-> "", res |-> "none", fresh |-> FALSE]
+       pc |-> "idle", arg |-> "", res |-> "none", fresh |-> FALSE,
+       stall |-> FALSE]   \* stalled: inside a store call whose first attempt(s) lost a race (CAS retry); see Stall
 
 Due(t) == t >= 0 /\ t <= clock
 \* model checking only: the environment acts up to time Bud0.envBy (liveness needs a quiet suffix)
@@ -66,12 +67,14 @@ EnvOK == clock <= Bud0.envBy
 Arm(p) == IF p > 0 THEN clock + p ELSE -1
 
 \* a lifecycler that still has something to do at the current instant
-Busy(i) == LET l == L[i] IN
+HasWork(i) == LET l == L[i] IN
     \/ l.phase \in {"init", "stopreq"}
     \/ l.pc # "idle" \/ l.res # "none"
     \/ l.phase = "run" /\ (Due(l.joinAt) \/ Due(l.obsAt) \/ Due(l.nextHb))
     \/ l.phase = "observing" /\ (Due(l.obsAt) \/ Due(l.nextHb))
     \/ l.phase = "stopping" /\ (Due(l.stopAt) \/ Due(l.nextHb))
+\* a stalled lifecycler (its store call is being retried) does nothing: the others and the environment go on
+Busy(i) == ~L[i].stall /\ HasWork(i)
 
 \* the environment (the driver) acts at quiescent points only; time advances only when every
 \* lifecycler has done what was due (the bubble clock)
@@ -247,7 +250,7 @@ Heartbeat(i) ==
 (**************************** external calls *****************************)
 \* the environment hands a call to the actor goroutine (pc), the lifecycler executes it (Do...)
 Request(i, op, a) ==
-    /\ L[i].phase = "run" /\ Calm /\ bud.ext > 0 /\ EnvOK
+    /\ L[i].phase = "run" /\ ~L[i].stall /\ Calm /\ bud.ext > 0 /\ EnvOK
     /\ SetL(i, [L[i] EXCEPT !.pc = op, !.arg = a])
     /\ bud' = [bud EXCEPT !.ext = @ - 1] /\ actor' = 0
     /\ UNCHANGED <<ring, rnil, clock, file, kvok, cfg, okSince>>
@@ -314,7 +317,7 @@ CheckReady(i) ==
 
 (******************************* shutdown ********************************)
 StopReq(i) ==
-    /\ L[i].phase = "run" /\ Classic(i) /\ Calm /\ bud.stop > 0 /\ EnvOK
+    /\ L[i].phase = "run" /\ Classic(i) /\ ~L[i].stall /\ Calm /\ bud.stop > 0 /\ EnvOK
     /\ SetL(i, [L[i] EXCEPT !.phase = IF L[i].st = "ACTIVE" THEN "stopreq" ELSE "stopping",
                             !.joinAt = -1, !.obsAt = -1,
                             !.nextHb = Arm(cfg[i].hb), !.stopAt = clock + cfg[i].fsleep])
@@ -343,7 +346,7 @@ FinishStop(i) ==
 
 (***************************** environment *******************************)
 \* time advances only when every lifecycler has done what was due (the bubble clock)
-Tick == /\ clock < MaxClock /\ Calm
+Tick == /\ clock < MaxClock /\ Calm /\ \A k \in Inst : ~L[k].stall
         /\ clock' = clock + 1 /\ actor' = 0
         /\ UNCHANGED <<ring, rnil, file, kvok, cfg, L, okSince, bud>>
 
@@ -360,6 +363,24 @@ SetKV(i, b) == /\ bud.kv > 0 /\ EnvOK /\ kvok[i] # b
                /\ okSince' = [okSince EXCEPT ![i] = clock]
                /\ bud' = [bud EXCEPT !.kv = @ - 1] /\ actor' = 0
                /\ UNCHANGED <<ring, rnil, clock, file, cfg, L>>
+
+(***************************************************************************)
+(* CAS retries.  kv.Client.CAS may evaluate the callback several times: an *)
+(* attempt whose read was overtaken by another writer is lost and the      *)
+(* callback is evaluated again on the newer ring.  Only the LAST           *)
+(* evaluation is the action (it reads the ring it writes on); the lost     *)
+(* ones leave no trace - whatever they computed (tokens, state,            *)
+(* registration time) is recomputed.  Between the lost attempt and the     *)
+(* retry the lifecycler is stalled while everybody else goes on.           *)
+(***************************************************************************)
+Stall(i) == /\ bud.stall > 0 /\ EnvOK /\ ~L[i].stall /\ HasWork(i) /\ L[i].res = "none" /\ kvok[i]
+            /\ L[i].phase \notin {"off", "dead"}
+            /\ SetL(i, [L[i] EXCEPT !.stall = TRUE])
+            /\ bud' = [bud EXCEPT !.stall = @ - 1] /\ actor' = 0
+            /\ UNCHANGED <<ring, rnil, clock, file, kvok, cfg, okSince>>
+Unstall(i) == /\ L[i].stall
+              /\ SetL(i, [L[i] EXCEPT !.stall = FALSE]) /\ actor' = 0
+              /\ UNCHANGED <<ring, rnil, clock, file, kvok, cfg, okSince, bud>>
 
 \* the process dies: everything volatile is lost, ring and tokens file stay
 Crash(i) == /\ bud.crash > 0 /\ EnvOK /\ L[i].phase \notin {"off", "dead"}
